@@ -517,6 +517,47 @@ func runC13(c *mc.Ctx) {
 			cases = append(cases, c13Case{Key: 0, P: 32, M: cf.m, Items: ih})
 		}
 	}
+	// item LENGTH and CONTENT: every length 0..72 and the neighbours of 128, 256, 1000, 65536, with
+	// non-uniform bytes incl. values >= 0x80 (the counter-string items above are short ASCII): an item
+	// hashed through a shortcut for "the common 32-byte case", or by words with a tail, takes another
+	// path than a 7-byte name.  Set {a_L, b_L, four short items}; queries: none (every member through
+	// every method), a member, a non-member of the same length, mixtures.
+	{
+		lens := []int{}
+		for L := 0; L <= 72; L++ {
+			lens = append(lens, L)
+		}
+		lens = append(lens, 127, 128, 129, 255, 256, 257, 999, 1000, 1001, 65535, 65536, 65537)
+		mkItem := func(L int, tag byte) []byte {
+			b := make([]byte, L)
+			for i := range b {
+				b[i] = byte(i*151+i>>2*29) ^ tag
+			}
+			if L > 0 {
+				b[L-1] |= 0x80
+			}
+			return b
+		}
+		for _, L := range lens {
+			a, b2, n1, n2 := mkItem(L, 0x11), mkItem(L, 0xa2), mkItem(L, 0x33), mkItem(L, 0xc4)
+			ih := []string{mc.Hex(a), mc.Hex(b2), mc.Hex([]byte("s1")), mc.Hex([]byte("s2")), mc.Hex([]byte("s3")), mc.Hex([]byte("s4"))}
+			if L == 0 {
+				ih = ih[1:] // a and b coincide
+			}
+			for key := 0; key < 2; key++ {
+				for _, pm := range []c13PM{{19, 784931}, {20, 1 << 20}} {
+					for _, q := range [][][]byte{nil, {a}, {n1}, {n1, a}, {n1, n2, b2}, {b2, n1}, {n1, n2}} {
+						var qh []string
+						for _, x := range q {
+							qh = append(qh, mc.Hex(x))
+						}
+						nontriv[len(cases)] = true
+						cases = append(cases, c13Case{Key: key, P: pm.P, M: pm.M, Items: ih, Query: qh})
+					}
+				}
+			}
+		}
+	}
 	c.Note("quotient_ladder_sets", ladderSets)
 	c.Note("configurations_with_a_low32_colliding_pair", collisionConfigs)
 	if collisionConfigs == 0 {
